@@ -3,6 +3,7 @@ package icc
 import (
 	"fmt"
 	"github.com/mandykoh/prism/meta/binary"
+	"io"
 	"time"
 )
 
@@ -180,12 +181,11 @@ func (pr *ProfileReader) readHeader(header *Header) error {
 	}
 	header.ProfileCreator = Signature(value)
 
-	bytesRead, err := pr.reader.Read(header.ProfileID[:])
-	if err != nil {
+	if _, err = io.ReadFull(pr.reader, header.ProfileID[:]); err != nil {
+		if err == io.ErrUnexpectedEOF {
+			return fmt.Errorf("unexpected EOF when reading profile ID")
+		}
 		return err
-	}
-	if bytesRead < len(header.ProfileID) {
-		return fmt.Errorf("unexpected EOF when reading profile ID")
 	}
 
 	// 28 reserved bytes
